@@ -288,6 +288,44 @@ fn d12_class(m: &Beatmap) -> bool {
     matches!(m.mode, GameMode::Taiko | GameMode::Mania) && m.control_points.effect_points.iter().any(|p| p.scroll_speed < 0.1)
 }
 
+/// D27: a difficulty point whose slider velocity is within f64::EPSILON of, but not equal to,
+/// the velocity of the properties the encoder wrote before it
+fn d27_class(m: &Beatmap) -> bool {
+    let cp = &m.control_points;
+    let mut prev = 1.0f64;
+    for p in cp.difficulty_points.iter() {
+        let base = if cp.timing_points.iter().any(|t| t.time == p.time) { 1.0 } else { prev };
+        if p.slider_velocity != base && (p.slider_velocity - base).abs() < f64::EPSILON {
+            return true;
+        }
+        prev = p.slider_velocity;
+    }
+    false
+}
+
+/// D28: a hit-object (end) time within f64::EPSILON of a control-point time, not equal to it
+fn d28_class(m: &Beatmap) -> bool {
+    let cp = &m.control_points;
+    let mut times: Vec<f64> = vec![];
+    times.extend(cp.timing_points.iter().map(|p| p.time));
+    times.extend(cp.difficulty_points.iter().map(|p| p.time));
+    times.extend(cp.effect_points.iter().map(|p| p.time));
+    times.extend(cp.sample_points.iter().map(|p| p.time));
+    let near = |a: f64| times.iter().any(|&t| t != a && (t - a).abs() < f64::EPSILON);
+    m.hit_objects.iter().any(|h| {
+        let end = match &h.kind {
+            HitObjectKind::Spinner(s) => h.start_time + s.duration,
+            HitObjectKind::Hold(s) => h.start_time + s.duration,
+            HitObjectKind::Slider(s) => {
+                let mut s = s.clone();
+                h.start_time + s.duration()
+            }
+            HitObjectKind::Circle(_) => h.start_time,
+        };
+        near(h.start_time) || near(end)
+    })
+}
+
 /// input order: timing-point and hit-object lines in chronological order (text scan)
 pub fn chronological(text: &str) -> bool {
     let mut sec = "";
@@ -385,14 +423,16 @@ pub fn oracle(text: &str, origin: &str, out: &mut Out) {
             scroll_bad = Some(t);
         }
     }
+    let d28 = d28_class(&m1);
+    let near_cls = if d28 { "D28" } else if d27_class(&m1) { "D27" } else { "" };
     if let Some(t) = sv_bad {
-        out.fail("", &desc, &format!("slider-velocity timeline differs at t={}: {} vs {}", t, sv_at(&m1, t), sv_at(&m2, t)));
+        out.fail(near_cls, &desc, &format!("slider-velocity timeline differs at t={}: {} vs {}", t, sv_at(&m1, t), sv_at(&m2, t)));
     }
     if let Some(t) = kiai_bad {
-        out.fail("", &desc, &format!("kiai timeline differs at t={}: {} vs {}", t, kiai_at(&m1, t), kiai_at(&m2, t)));
+        out.fail(if d28 { "D28" } else { "" }, &desc, &format!("kiai timeline differs at t={}: {} vs {}", t, kiai_at(&m1, t), kiai_at(&m2, t)));
     }
     if let Some(t) = scroll_bad {
-        out.fail(if d19 { "D22" } else if d12 { "D12" } else { "" }, &desc, &format!("scroll-speed timeline differs at t={}: {} vs {}", t, scroll_at(&m1, t), scroll_at(&m2, t)));
+        out.fail(if d19 { "D22" } else if d12 { "D12" } else if d28 { "D28" } else { "" }, &desc, &format!("scroll-speed timeline differs at t={}: {} vs {}", t, scroll_at(&m1, t), scroll_at(&m2, t)));
     }
     // hit objects.  An object whose encoded line is rejected on re-read is lost (C04's
     // business; known for the D2 class): it is reported and left out of the expectation.
@@ -484,6 +524,10 @@ pub fn mutate_field(r: &mut Rng, text: &str) -> String {
 
 pub fn generate(tier: &str, seed: u64, out: &mut Out) {
     let mut skipped = 0u64;
+    for (o, t) in c04::RECORDED_INPUTS {
+        c04::enc_case(t, o, out);
+        oracle(t, o, out);
+    }
     // correspondence: the same files through the `enc` model entry
     c04::texts(tier, seed ^ 0xC02, false, true, |t, o| {
         if chronological(t) {
